@@ -81,7 +81,7 @@ def isect_history(rng, enc):
     return "%s %d ; %s" % (enc, len(steps), " ; ".join(steps))
 def cases(rng, tier):
     cs = [(l, "corpus") for l in CORPUS]
-    nt, nr = (250, 500) if tier == "quick" else (3000, 8000)
+    nt, nr = (250, 500) if tier == "quick" else (2000, 5000)
     for enc in ("bu", "td"):
         for _ in range(nt * 2): cs.append((isect_history(rng, enc), "targeted_isect"))
         for _ in range(nt): cs.append((history(rng, enc, True), "targeted"))
@@ -93,6 +93,7 @@ def observe(dist, c, impl, verd):
         n = c.count("; %s " % op)
         if n: dist["op_" + op] = dist.get("op_" + op, 0) + n
     dist["enc_" + c[:2]] = dist.get("enc_" + c[:2], 0) + 1
+    if "truncated_large" in verd: dist["truncated_large(>12 states: judged up to that step)"] = dist.get("truncated_large(>12 states: judged up to that step)", 0) + 1
 def shrink_candidates(c):
     parts = c.split(" ; ")
     enc = parts[0].split()[0]; ops = parts[1:]
